@@ -9,7 +9,7 @@ import inspect
 
 from . import common, flat
 from .common import SLOT
-from .flat import TRIGGER, MAY, canon_exc, make_exc, ename
+from .flat import TRIGGER, MAY, canon_exc, make_exc, ename, flavour as flat_flavour
 
 QMODES = (False, True, 'model')
 
@@ -237,7 +237,7 @@ class Run7(flat.FlatRun):
     def finish(self, cid, out):
         if out[0] == 'ret':
             self.items.append(('done', cid, 0, int(bool(out[1])), 0))
-            return out[1]
+            return flat_flavour(self.d, cid, out[1], len(self.items))
         exc = make_exc(out[1], out[2])
         self.__dict__.setdefault('scripted', []).append(exc)
         self.items.append(('done', cid, 1) + canon_exc(exc))
